@@ -7,6 +7,7 @@ import (
 	"flag"
 	"fmt"
 	"os"
+	"regexp"
 	"runtime"
 	"runtime/debug"
 	"runtime/pprof"
@@ -188,7 +189,7 @@ func cmdExplore(args []string) {
 				h[k] = r.TraceHash
 				found := false
 				for _, d := range ex.Check(r) {
-					if d == v.Desc {
+					if normDesc(d) == normDesc(v.Desc) {
 						found = true
 					}
 				}
@@ -211,6 +212,12 @@ func cmdExplore(args []string) {
 		fmt.Println(string(data))
 	}
 }
+
+var runDependent = regexp.MustCompile(`goroutine \d+|\+?0x[0-9a-f]+`)
+
+// normDesc removes what legitimately differs between two runs of one schedule (goroutine numbers and
+// addresses inside a recorded stack).
+func normDesc(d string) string { return runDependent.ReplaceAllString(d, "#") }
 
 // Replay file format.
 type ReplayFile struct {
